@@ -53,7 +53,7 @@ def judge(ctx, cfgs, tasks, results):
 
 
 def run(ctx):
-    per = 120 if ctx.tier == "thorough" else 14
+    per = 150 if ctx.tier == "thorough" else 40
     cfgs, tasks = gen_sessions(ctx, per)
     results = EP.common.pmap(EP.run_session_task, tasks)
     judge(ctx, cfgs, tasks, results)
